@@ -205,6 +205,14 @@ def _variants():
               [N("enc", {"type": "msg", "v": "2", "mediatype": "video"}, data=b"\x33\x0a\x21\x05abc"), N("enc", {"type": "skmsg", "v": "2"}, data=b"\x33\x08\x02skdata")])))
     V.append((EM + "#two-media-types", EM, lambda: N("message", {"from": J1, "t": "1418906418", "type": "media", "id": "1418906377-4", "notify": "Someone"},
               [N("enc", {"type": "pkmsg", "v": "2", "mediatype": "audio"}, data=b"\x33\x08\x01\x12\x21\x05abcdef"), N("enc", {"type": "msg", "v": "2", "mediatype": "image"}, data=b"\x33\x0a\x21\x05abc")])))
+    # the answer to an upload request in every combination of its optional attributes (its repository fixture module does not import here)
+    UP = "protocol_media:iq_requestupload_result.ResultRequestUploadIqProtocolEntity"
+    for vname, child in (("url", N("encr_media", {"url": "https://mmg.example/u/1"})),
+                         ("url-ip", N("encr_media", {"url": "https://mmg.example/u/1", "ip": "203.0.113.7"})),
+                         ("url-resume", N("encr_media", {"url": "https://mmg.example/u/1", "resume": "4096"})),
+                         ("url-ip-resume", N("encr_media", {"url": "https://mmg.example/u/1", "ip": "203.0.113.7", "resume": "4096"})),
+                         ("duplicate", N("duplicate", {"url": "https://mmg.example/u/1"}))):
+        V.append((UP + "#" + vname, UP, (lambda child=child: N("iq", {"id": "12", "type": "result", "from": "s.whatsapp.net"}, [_clone(child)]))))
     # a call stanza of every kind the entity knows (the repository's fixture is the offer): the kind is the tag of the child carrying the call id
     CALL = "protocol_calls:call.CallProtocolEntity"
     for kind in ("transport", "relaylatency", "reject", "terminate"):
